@@ -56,6 +56,7 @@ def report_sys(ck, prop, found, limit=3):
     for obs, texts in found[:limit]:
         ck.violation({'kind': 'system-run', 'what': texts, 'targets': obs['targets'], 'roots': obs['roots'],
                       'failing_scripts': obs['fail'], 'gated': obs['gated'], 'observed_trace': obs['trace'],
+                      'dependencies_declared_through_X.output': obs.get('dependencies_declared_through_X.output'),
                       'second_run': obs.get('second_run'),
                       'outcome': obs['outcome'], 'exit_code': obs['exit_code'], 'stderr_tail': obs['stderr_tail'],
                       'arguments_before_targets': obs.get('pre_args'),
